@@ -36,16 +36,12 @@ Proof. exact field_imports_cover. Qed.
 Print Assumptions C07_field_imports_cover_extensions.
 
 (* ---- acceptance of the documented language.  Full statement: *)
-Definition C07_full_statement : Prop :=
-  forall p, in_language p = true -> o_verdict (compile_iso p) = VOk.
+Definition C07_full_statement : Prop := full_language_statement.
 
 (* it does not hold: float rules ("TODO: float rules not implemented") and list rules on an
    informal key ("unknown key format") are rejected — recorded findings *)
 Theorem C07_language_refuted : ~ C07_full_statement.
-Proof.
-  intros H. pose proof (H float_rules_witness) as Hf.
-  destruct language_refuted as [Hl [Hv _]]. rewrite (Hf Hl) in Hv. discriminate.
-Qed.
+Proof. exact full_language_refuted. Qed.
 Print Assumptions C07_language_refuted.
 
 (* what holds: everything in the language except those two combinations is accepted and links;
@@ -53,9 +49,7 @@ Print Assumptions C07_language_refuted.
 Theorem C07_language_accepted_partial : forall p,
   in_language p = true -> uses_float_rules p = false -> uses_informal_key_listrules p = false ->
   o_verdict (compile_iso p) = VOk.
-Proof.
-  intros p H1 H2 H3. apply iso_language_accepted. unfold accepted_language. rewrite H1, H2, H3. reflexivity.
-Qed.
+Proof. exact language_accepted_partial. Qed.
 Print Assumptions C07_language_accepted_partial.
 
 (* conversely a property is rejected only when it is outside the accepted language, and a rejection
@@ -113,13 +107,10 @@ Proof. exact object_shell_accepted. Qed.
 Print Assumptions C07_object_shell_accepted.
 
 (* services: full statement *)
-Definition C07_service_full_statement : Prop :=
-  forall sv, service_in_language sv = true -> verdict_d (compile_service sv) = VOk.
+Definition C07_service_full_statement : Prop := service_full_statement.
 (* refuted: a method with a list request panics in SetExtension (recorded finding) *)
 Theorem C07_service_refuted : ~ C07_service_full_statement.
-Proof.
-  intro H. destruct service_listrequest_panics as [Hl Hp]. rewrite (H _ Hl) in Hp. discriminate.
-Qed.
+Proof. exact service_full_refuted. Qed.
 Print Assumptions C07_service_refuted.
 (* partial: without list requests a service never panics and always links (whatever its methods:
    missing request, bad verb, unknown path parameter), and is accepted when in the language;
